@@ -445,7 +445,7 @@ func parent(prop, tier, filter string, boundOverride int, budget time.Duration, 
 		return 2
 	}
 	if budget == 0 {
-		budget = 60 * time.Second
+		budget = 150 * time.Second
 		if tier == "thorough" {
 			budget = 10 * time.Minute
 		}
